@@ -124,7 +124,10 @@ def val_py(v, n):
   if 'op' in v:
     return tuple(None if x is None else num(x) for x in v['op'])
   if 'nd' in v:
-    return {0: 5, 1: [1, 1, 0], 2: [[1, 1, 0]]*max(n, 1), 3: [[[1]]]}[v['nd']]
+    if v['nd'] == 2:
+      rows = v.get('rows', n)
+      return [[1 + i, 1, 0] for i in range(rows)] if not v.get('_alt') else [[2, 1 + i, 0] for i in range(rows)]
+    return {0: 5, 1: [1, 1, 0] if not v.get('_alt') else [3, 2, 0], 3: [[[1]]]}[v['nd']]
   if 'b' in v:
     return to_py(v['b'])
   if 'cb' in v:
@@ -468,7 +471,12 @@ def enum_params(ns):
           ctor(cls, n, [], [('bounds', {'b': T('-1', L(*v))}), ('bounds', {'b': T('-2', '-1')})])
       ctor(cls, n, [], b=L(*[L(None, None)]*n))
     for k in range(0, 4):
-      ctor('GDevice', n, [('cost_coeffs', {'nd': k})])
+      ctor('GDevice', n, [('cost_coeffs', {'nd': k, 'rows': n})])
+      ctor('GDevice', n, [], [('cost_coeffs', {'nd': k, 'rows': n})])
+    for rows in (n - 1, n + 1, n + 2):
+      if rows >= 1:                                     # (an empty list is a 1-D array, not a table)
+        ctor('GDevice', n, [('cost_coeffs', {'nd': 2, 'rows': rows})])       # a per-slot table needs one row per slot
+        ctor('GDevice', n, [('cost_coeffs', {'nd': 1, 'rows': n})], [('cost_coeffs', {'nd': 2, 'rows': rows})])
     # keys a class has no property for are plain attributes
     for cls in CLASSES:
       ctor(cls, n, [('c1', '-5')] if cls != 'SDevice' else [('p_l', '5')])
@@ -489,10 +497,13 @@ def enum_class_forms(ns):
   for n in ns:
     cbs = [None, {'p': ['-1', '1']}, {'p': ['1', '-1']}, {'i': [['-1', '1', '0', str(n)]]}, {'i': [[str(-n - 1), str(-n - 1), '0', str(n)]]},
            {'i': [['-1', '1', '0']]}, {'i': [['-1/2', '1/2', '0', '1'], ['-1', '1', '1', str(n)]]}, {'i': [[str(n + 1), str(n + 2), '0', str(n)]]}]
+    if n >= 3:      # several cumulative ranges: stopping before the horizon, leaving a gap, not starting at slot 0 (CDevice2 needs a tiling)
+      cbs += [{'i': [['-1', '1', '0', '1'], ['-1', '1', '1', str(n - 1)]]}, {'i': [['-1', '1', '0', '1'], ['-1', '1', '2', str(n)]]},
+              {'i': [['-1', '1', '1', '2'], ['-1', '1', '2', str(n)]]}, {'i': [['-1', '1', '0', '2'], ['-1', '1', '1', str(n)]]}]
     for cls in CLASSES:
       for b in bounds_forms_small(n):
         for cb in cbs:
-          cs.append({'k': 'ctor', 'cls': cls, 'n': n, 'b': b, 'cb': cb, 'kw': [['cost_coeffs', {'nd': 1}]] if cls == 'GDevice' else []})
+          cs.append({'k': 'ctor', 'cls': cls, 'n': n, 'b': b, 'cb': cb, 'kw': [['cost_coeffs', {'nd': 1, 'rows': n}]] if cls == 'GDevice' else []})
   return cs
 
 
@@ -557,10 +568,79 @@ def rand_history(rng, ns):
     if cls == 'CDevice':
       return [rng.choice(['a', 'b']), q(-2, 2)]
     if cls == 'GDevice':
-      return ['cost_coeffs', {'nd': rng.choice([0, 1, 1, 2, 3])}]
+      return ['cost_coeffs', {'nd': rng.choice([0, 1, 1, 2, 2, 3]), 'rows': rng.choice([n, n, n, n + 1, max(n - 1, 1)])}]
     return [rng.choice(['c1', 'efficiency']), q(-2, 2)]
   b = T('-1', '0') if cls in GEN_CLASSES or rng.random() < 0.3 else T('0', '1')
   return {'k': 'ctor', 'cls': cls, 'n': n, 'b': b, 'cb': None, 'kw': [], 'sets': [one() for _ in range(rng.randint(1, 7))]}
+
+
+def enum_twins(ns, rng, extra):
+  """setter histories whose end state is compared with a FRESH device built directly with the final settings:
+  every public setter of every class (bounds, cbounds, curve / storage parameters, cost_coeffs 1-D <-> 2-D <-> 2-D),
+  one or more assignments, through `setattr` and through `device.params = {...}`."""
+  cs = []
+  def twin(cls, n, sets, kw=(), b=None, cb=None, via='setattr'):
+    b = b if b is not None else (T('-2', '0') if cls in GEN_CLASSES else (T('-1', '1') if cls == 'SDevice' else T('0', '2')))
+    cs.append({'k': 'twin', 'cls': cls, 'n': n, 'b': b, 'cb': cb, 'kw': [list(x) for x in kw], 'sets': [list(x) for x in sets], 'via': via})
+  for n in ns:
+    for cls in CLASSES:
+      gen = cls in GEN_CLASSES
+      kw0 = [('cost_coeffs', {'nd': 1, 'rows': n})] if cls == 'GDevice' else []
+      b1 = T('-1', '0') if gen else T('1/2', '3/2')
+      b2 = L(L(*['-3/2']*n), L(*(['-1/2'] + ['0']*(n - 1)))) if gen else L(L(*['0']*n), L(*(['1'] + ['3']*(n - 1))))
+      lo, hi = (-2*n, 0) if gen else ((-n, n) if cls == 'SDevice' else (0, 2*n))
+      mid = Fraction(lo + hi, 2)
+      cbA, cbB = {'p': [C.fs(mid - Fraction(1, 4)), C.fs(mid + Fraction(1, 4))]}, {'i': [[C.fs(mid - Fraction(1, 2)), C.fs(mid + Fraction(1, 8)), '0', str(n)]]}
+      for via in ('setattr', 'params'):
+        twin(cls, n, [('bounds', {'b': b1})], kw0, via=via)
+        twin(cls, n, [('bounds', {'b': b1}), ('bounds', {'b': b2})], kw0, via=via)
+        twin(cls, n, [('cbounds', {'cb': cbA})], kw0, via=via)
+        twin(cls, n, [('cbounds', {'cb': cbB})], kw0, cb=cbA, via=via)
+        twin(cls, n, [('cbounds', {'cb': cbB}), ('cbounds', {'cb': cbA})], kw0, via=via)
+        if cls != 'CDevice2':
+          twin(cls, n, [('cbounds', {'cb': None})], kw0, cb=cbA, via=via)
+      vec = lambda a, b_: [a] + [b_]*(n - 1)
+      if cls == 'SDevice':
+        for f, vs in [('c1', ['2', '1/2']), ('c2', ['1/2', '1/4']), ('c3', ['1', '3']), ('capacity', ['4', '20']), ('start', ['1/2', '1/4']),
+                      ('reserve', ['1/4', '1/2']), ('damage_depth', ['1/2', '1/4']), ('efficiency', ['1/2', '3/4']), ('sustainment', ['1/2', '3/4']),
+                      ('rate_clip', ['2', {'op': [None, '3/2']}, None])]:
+          base = [('c3', '1'), ('damage_depth', '1/4'), ('start', '1/2')] if f not in ('c3', 'damage_depth', 'start') else [('c3', '1')] if f != 'c3' else []
+          for via in ('setattr', 'params'):
+            twin(cls, n, [(f, vs[0])], base, via=via)
+            twin(cls, n, [(f, v) for v in vs], base, via=via)
+      if cls == 'IDevice':
+        for f, vs in [('a', ['1/2', '1/4', vec('1/2', '1/4')]), ('b', ['3', '4', vec('2', '3')]), ('c', ['2', '3', vec('1', '2')])]:
+          for via in ('setattr', 'params'):
+            twin(cls, n, [(f, vs[0])], via=via)
+            twin(cls, n, [(f, v) for v in vs], via=via)
+            twin(cls, n, [(f, vs[1])], [(f, vs[0])], via=via)
+      if cls in ('IDevice2', 'CDevice2'):
+        vs_l = ['-2', '-3'] + ([vec('-4', '-2')] if cls == 'IDevice2' else ['-5/2'])
+        vs_h = ['-1/2', '-1/4'] + ([vec('-1/8', '-1/2')] if cls == 'IDevice2' else ['-3/4'])
+        for via in ('setattr', 'params'):
+          twin(cls, n, [('p_l', vs_l[0])], via=via); twin(cls, n, [('p_h', vs_h[0])], via=via)
+          twin(cls, n, [('p_l', v) for v in vs_l], via=via); twin(cls, n, [('p_h', v) for v in vs_h], via=via)
+          twin(cls, n, [('p_l', '-3'), ('p_h', '-2')], via=via)
+      if cls == 'CDevice':
+        for via in ('setattr', 'params'):
+          twin(cls, n, [('a', '-1')], via=via); twin(cls, n, [('a', '-1'), ('a', '-2'), ('b', '3')], [('a', '-1/2')], via=via)
+      if cls == 'GDevice':
+        d1, d1b = {'nd': 1, 'rows': n}, {'nd': 1, 'rows': n, '_alt': True}
+        d2, d2b = {'nd': 2, 'rows': n}, {'nd': 2, 'rows': n, '_alt': True}
+        for via in ('setattr', 'params'):
+          for seq in ([d1b], [d2], [d2, d2b], [d2, d1b], [d2, d1b, d2b], [d1b, d2b, d2]):
+            twin(cls, n, [('cost_coeffs', v) for v in seq], [('cost_coeffs', d1)], via=via)
+          twin(cls, n, [('cost_coeffs', d2b)], [('cost_coeffs', d2)], via=via)
+          twin(cls, n, [('cost_coeffs', d1)], [], via=via)
+          twin(cls, n, [('cost_coeffs', d2)], [], via=via)
+  for _ in range(extra):
+    h = rand_history(rng, [n for n in ns])
+    if h['cls'] in CLASSES:
+      h = dict(h); h['k'] = 'twin'; h['via'] = rng.choice(['setattr', 'params'])
+      if h['cls'] == 'GDevice':
+        h['kw'] = [['cost_coeffs', {'nd': 1, 'rows': h['n']}]]
+      cs.append(h)
+  return cs
 
 
 # ---------------------------------------------------------------- the documented grammar (oracle, independent of the model)
@@ -646,9 +726,11 @@ def ref_cbounds(j, n, lb, hb):
     if not isinstance(it, list) or len(it) != 4:
       return ('ill', 'arity')
     l, h, s, e = Fraction(it[0]), Fraction(it[1]), int(Fraction(it[2])), int(Fraction(it[3]))
+    if not 0 <= s < e <= n:
+      return ('ill', 'range')                       # a cumulative bound is about the flow summed over its own slots [s, e)
     if not l < h:
       return ('ill', 'low-not-below-high')
-    idx = list(range(n))[s:e]
+    idx = list(range(s, e))
     if sum(lb[i] for i in idx) > h or sum(hb[i] for i in idx) < l:
       return ('ill', 'unattainable')
     out.append((l, h, s, e))
@@ -685,12 +767,12 @@ def param_in_range(cls, n, f, v):
   if cls in ('IDevice2', 'CDevice2'):
     xs = fr(v)
     if isinstance(xs, list):
-      return len(xs) == n and all(x <= 0 for x in xs)
+      return cls == 'IDevice2' and len(xs) == n and all(x <= 0 for x in xs)    # CDevice2: scalars only (its curve acts on the flow sum)
     return xs <= 0
   if cls == 'CDevice':
     return Fraction(v) <= 0 if f == 'a' else True
   if cls == 'GDevice':
-    return v['nd'] in (1, 2)
+    return v['nd'] == 1 or (v['nd'] == 2 and v.get('rows', n) == n)
   return None
 
 
@@ -717,7 +799,7 @@ class C11(Prop):
     'DK.C11.validate_sound', 'DK.C11.validate_sound_partial', 'DK.C11.validate_sound_counterexample', 'DK.C11.validate_complete',
     'DK.C11.denotes_unique', 'DK.C11.gen_bounds_iff', 'DK.C11.gen_bounds_rejects_documented_form', 'DK.Validate.npShape_table_iff',
     'DK.Validate.tableRows_iff',
-    'DK.C11.cbound_accept_iff', 'DK.C11.cbItem_accept_iff', 'DK.C11.cbound_attainable', 'DK.C11.setCbounds_ok_iff',
+    'DK.C11.cbRangeOk_iff', 'DK.C11.sliceSum_inRange', 'DK.C11.cbound_accept_iff', 'DK.C11.cbItem_accept_iff', 'DK.C11.cbound_attainable', 'DK.C11.setCbounds_ok_iff',
     'DK.C11.setCbounds_attainable', 'DK.C11.setCbounds_reject_clears', 'DK.C11.setCbounds_items', 'DK.C11.setCboundsNone_ok',
     'DK.C11.sC1Ok_iff', 'DK.C11.sC2Ok_iff', 'DK.C11.sC3Ok_iff', 'DK.C11.sCapacityOk_iff', 'DK.C11.sUnitOk_iff', 'DK.C11.sRateOk_iff',
     'DK.C11.sClipOk_iff', 'DK.C11.cAOk_iff', 'DK.C11.tSustainmentOk_iff', 'DK.C11.tEfficiencyOk_iff', 'DK.C11.tRangeOk_iff',
@@ -725,6 +807,7 @@ class C11(Prop):
     'DK.C11.deviceSetCheck_iff', 'DK.C11.mfCheck_iff', 'DK.C11.twoRatioCheck_iff', 'DK.C11.tdeviceCheck_iff',
     'DK.C11.setField_step', 'DK.C11.step_frame', 'DK.C11.step_pinv', 'DK.C11.step_reported', 'DK.C11.setAll_reported', 'DK.C11.params_invariant', 'DK.C11.construct_params_invariant', 'DK.C11.history_params_invariant',
     'DK.C11.hl_pointwise', 'DK.C11.sdevice_c1_zero_c2_pos_reachable', 'DK.C11.hl_order_dependent',
+    'DK.C11.cdevice2_scalar_invariant', 'DK.C11.cdevice2Ranges_ok', 'DK.C11.gdevice_coeffs_accept_iff',
     'DK.C11.gen_hb_nonpos', 'DK.C11.gen_rejected_bounds_retained', 'DK.C11.reported_eq_supplied',
   ]
   # the T1 bridge lemmas live in DK/Lemmas/ValidateBridge.lean (imported by DK.Props.C11), so they are audited with the
@@ -791,6 +874,7 @@ class C11(Prop):
     pc = enum_params(small); enumerated['parameter thresholds'] = len(pc); cs += pc
     cf = enum_class_forms(small); enumerated['class x form x cbounds'] = len(cf); cs += cf
     sc = enum_sets(small); enumerated['set level'] = len(sc); cs += sc
+    tw = enum_twins(small, rng, count // 3); enumerated['setter history vs fresh twin'] = len(tw); cs += tw
     for _ in range(count):
       cs.append(rand_history(rng, small))
     self._enumerated = enumerated
@@ -842,8 +926,8 @@ class C11(Prop):
     if k == 'set':
       line = dict(case); line['op'] = 'validate.set'; del line['k']
       return [Op(line, lambda: run_set(case), 1e-9, 'set-level check: ' + case['kind'])]
-    if k == 'probe':
-      return []
+    if k in ('probe', 'twin'):
+      return []                                    # oracle only (the model does not describe costs)
     raise ValueError(k)
 
   # ------------------------------------------------------------ oracle
@@ -871,7 +955,119 @@ class C11(Prop):
       self.oracle_set(case, fail)
     elif k == 'probe':
       self.oracle_probe(case, fail)
+    elif k == 'twin':
+      self.oracle_twin(case, fail)
     return list(fails.values())
+
+  # ---- setter history vs a fresh device with the final settings
+  def fresh_twin(self, cls, n, b, cb, kw):
+    """a device constructed directly with the final settings (keyword order tried both ways: the constructor is order-dependent)."""
+    err = None
+    for order in (list(kw.items()), list(reversed(list(kw.items())))):
+      try:
+        return build({'cls': cls, 'n': n, 'b': b, 'cb': cb, 'kw': [list(x) for x in order]}), None
+      except Exception as e:
+        err = e
+    return None, err
+
+  def behaviour_diff(self, dev, fresh, cls, n):
+    """first observable difference between two devices that hold the same settings, or None."""
+    n_ = np()
+    def same(a, b, tol=1e-9):
+      a, b = n_.array(a, dtype=float), n_.array(b, dtype=float)
+      return a.shape == b.shape and bool(n_.all(n_.abs(a - b) <= tol*n_.maximum(1, n_.abs(b))))
+    def both(f, g):
+      ra = rb = ea = eb = None
+      try: ra = f()
+      except Exception as e: ea = e
+      try: rb = g()
+      except Exception as e: eb = e
+      return ra, ea, rb, eb
+    if not same(dev.lbounds, fresh.lbounds) or not same(dev.hbounds, fresh.hbounds):
+      return 'reports bounds %s, a fresh device %s' % (n_.array(dev.bounds).tolist(), n_.array(fresh.bounds).tolist())
+    ca, cb_ = dev.cbounds, fresh.cbounds
+    if (ca is None) != (cb_ is None) or (ca is not None and (len(ca) != len(cb_) or any(not same(list(x), list(y)) for x, y in zip(ca, cb_)))):
+      return 'reports cbounds %r, a fresh device %r' % (ca, cb_)
+    for f in OWNS[cls]:
+      x, y = getattr(dev, f), getattr(fresh, f)
+      if f == 'rate_clip':
+        if tuple(x) != tuple(y): return 'reports rate_clip %r, a fresh device %r' % (x, y)
+      elif f == 'cost_coeffs':
+        if (x is None) != (y is None) or (x is not None and not same(x, y)): return 'reports cost_coeffs %r, a fresh device %r' % (x, y)
+      elif not same(x, y):
+        return 'reports %s=%r, a fresh device %r' % (f, x, y)
+    da, db = dev.to_dict(), fresh.to_dict()
+    for k_ in da:
+      if k_ in db and k_ not in ('id', 'f', 'constraints'):
+        xa, xb = da[k_], db[k_]
+        try:
+          eq = (xa is None and xb is None) or (k_ == 'rate_clip' and tuple(xa) == tuple(xb)) or \
+               (k_ == 'cbounds' and xa is not None and xb is not None and len(xa) == len(xb) and all(same(list(u), list(v)) for u, v in zip(xa, xb))) or \
+               (k_ not in ('rate_clip', 'cbounds') and xa is not None and xb is not None and same(xa, xb))
+        except Exception:
+          eq = False
+        if not eq:
+          return 'to_dict()[%r] is %r, a fresh device gives %r' % (k_, xa, xb)
+    lo, hi = n_.array(fresh.lbounds, dtype=float), n_.array(fresh.hbounds, dtype=float)
+    w = n_.array([0.25 if i % 2 == 0 else 0.75 for i in range(n)])
+    probes = [lo, hi, (lo + hi)/2, lo + w*(hi - lo)]
+    for s in probes:
+      for p in (0.0, 0.5):
+        for name in ('cost', 'deriv'):
+          ra, ea, rb, eb = both(lambda: getattr(dev, name)(s.copy(), p), lambda: getattr(fresh, name)(s.copy(), p))
+          if eb is not None:
+            continue                                  # the fresh device itself cannot evaluate here (C10's business)
+          if ea is not None:
+            return '%s(%s, %s) raises %s, a fresh device returns %s' % (name, s.tolist(), p, type(ea).__name__, n_.array(rb).tolist())
+          if not same(n_.array(ra, dtype=float).reshape(-1), n_.array(rb, dtype=float).reshape(-1), 1e-7):
+            return '%s(%s, %s) = %s, a fresh device returns %s' % (name, s.tolist(), p, n_.array(ra).tolist(), n_.array(rb).tolist())
+    ka, kb = dev.constraints, fresh.constraints
+    if len(ka) != len(kb):
+      return 'has %d constraints, a fresh device %d' % (len(ka), len(kb))
+    for i, (x, y) in enumerate(zip(ka, kb)):
+      if x['type'] != y['type']:
+        return 'constraint %d has type %s, a fresh device %s' % (i, x['type'], y['type'])
+      for s in probes:
+        ra, ea, rb, eb = both(lambda: x['fun'](s.copy()), lambda: y['fun'](s.copy()))
+        if eb is None and (ea is not None or not same(ra, rb, 1e-7)):
+          return 'constraint %d at %s is %s, a fresh device gives %s' % (i, s.tolist(), 'an exception' if ea is not None else ra, rb)
+    return None
+
+  def oracle_twin(self, case, fail):
+    cls, n, via = case['cls'], case['n'], case.get('via', 'setattr')
+    try:
+      dev = build(case)
+    except Exception:
+      return
+    b, cb, kw = case['b'], case['cb'], dict((k_, v) for k_, v in case['kw'])
+    show = '%s(id, %d, bounds=%r, cbounds=%r, %s)' % (cls, n, to_py(b), spec_py(cb), ', '.join('%s=%r' % (k_, val_py(v, n)) for k_, v in case['kw']))
+    done = []
+    for f, v in case['sets']:
+      try:
+        if via == 'params':
+          dev.params = {f: val_py(v, n)}
+        else:
+          setattr(dev, f, val_py(v, n))
+      except Exception:
+        return                                        # a rejected assignment ends the comparison (what it leaves behind is an observation elsewhere)
+      if f not in OWNS[cls] + ['bounds', 'cbounds']:
+        continue                                      # a plain attribute
+      done.append('%s = %r' % (f, val_py(v, n)))
+      if f == 'bounds': b = v['b']
+      elif f == 'cbounds': cb = v['cb']
+      else:
+        kw.pop(f, None); kw[f] = v
+      self._inputs += 1
+      fresh, err = self.fresh_twin(cls, n, b, cb, kw)
+      if fresh is None:
+        self.note('assignments reach settings the constructor itself rejects (a setter validates only against the current other settings)',
+                  '%s then %s: a fresh device with these settings raises %s(%s)' % (show, '; '.join(done), type(err).__name__, str(err)[:60]))
+        return
+      diff = self.behaviour_diff(dev, fresh, cls, n)
+      if diff is not None:
+        fail({'kind': 'stale-after-setter', 'cls': cls, 'field': f},
+             '%s then %s (%s): the device %s' % (show, '; '.join(done), 'device.params = {...}' if via == 'params' else 'setattr', diff))
+        return
 
   def oracle_probe(self, case, fail):
     """inputs outside the modelled fragment (strings; nesting depth 3): every one of them is ill-formed."""
@@ -1009,6 +1205,11 @@ class C11(Prop):
       refc = ref_cbounds(case['cb'], n, [Fraction(r[0]) for r in refb[1]], [Fraction(r[1]) for r in refb[1]])
       if refc[0] == 'ill':
         bad.append('cbounds ' + refc[1])
+      elif cls == 'CDevice2' and refc[1] and len(refc[1]) >= 2:
+        # one curve per cumulative range: the ranges must tile the horizon
+        ends = [0] + [c[3] for c in refc[1]]
+        if any(c[2] != ends[i] for i, c in enumerate(refc[1])) or ends[-1] != n:
+          bad.append('cbounds ranges-do-not-tile-the-horizon')
     for f, v in case['kw']:
       if param_in_range(cls, n, f, v) is False:
         bad.append('%s out of range' % f)
@@ -1174,12 +1375,12 @@ class C11(Prop):
       if kind == 'tworatio':
         if case['nflows'] != 2:
           return expect(True, 'it supports exactly two flows', show, 'flow-count')
-        if case.get('rlen') is not None and case['rlen'] != 2:
+        if case.get('rlen') is None:
+          return expect(True, 'there are no ratios', show, 'ratios-missing')
+        if case['rlen'] != 2:
           return expect(True, 'ratios and flows differ in length', show, 'ratios-length')
         if not case['ctok']:
           return expect(True, 'the constraint type is unknown', show, 'constraint-type')
-        if case.get('rlen') is None and code == 0:
-          self.note('TwoRatioMFDeviceSet accepts ratios=None (unusable afterwards)', show)
       return expect(False, '', show, '')
     if kind == 'tdevice':
       n = case['n']
